@@ -411,7 +411,9 @@ class ConstantDiagLinearOperator(DiagLinearOperator):
     def solve_triangular(
         self, rhs: torch.Tensor, upper: bool, left: bool = True, unitriangular: bool = False
     ) -> torch.Tensor:
-        return rhs / self.diag_values
+        # diag_values is (*batch, 1): a matrix rhs (*batch, N, K) needs one more trailing dimension, a vector does not
+        diag_values = self.diag_values if rhs.dim() == 1 else self.diag_values.unsqueeze(-1)
+        return rhs / diag_values
 
     def sqrt(self: Float[LinearOperator, "*batch M N"]) -> Float[LinearOperator, "*batch M N"]:
         """
